@@ -20,7 +20,9 @@ def main():
     rc, out = sh("git -C /repo worktree add --detach %s HEAD" % ev)
     assert rc == 0, out
     rc, out = sh("git -C %s apply %s" % (ev, os.path.join(d, "patch.diff")))
-    assert rc == 0, "patch does not apply to /repo's HEAD: " + out
+    if rc != 0:
+        sh("git -C /repo worktree remove --force %s" % ev)
+        raise SystemExit("patch does not apply to /repo's HEAD (rebase it by hand, keep patch.orig.diff): " + out)
     cenv = dict(os.environ, LSF_REPO=ev)
     ran = []
     try:
